@@ -1,12 +1,18 @@
 (** C11 — adjacent occurrences of different options commute.
-    PARTIAL. Proved, for every declared-options table, every spelling of the two occurrences (one or
-    two tokens each), every position in the scanned run and every rest of the command line: to the
-    matcher of either option, the two orders of the adjacent pair look the same — it finds its own
-    occurrence with the same value and leaves the other occurrence untouched in the remainder. NOT
-    yet proved: the same inside a folded token (two adjacent letters) and the lifting through
-    State.apply (DESIGN 5/T3); both are covered on every run by swapping every adjacent pair on the
-    implementation itself. *)
-From MowCli Require Import Base Matchers MatcherProofs.
+    PROVED on the model for every command whose spec has no "--" atom, at the level of the whole
+    search (verdict and every bound value), for every declared-options table in which no option is
+    called "-" or "=":
+    [C11_swapped_readings_same_parse]: two command lines whose clean readings differ by the order of
+    two adjacent occurrences of different options, before any "--", are parsed alike by a compiled
+    command; [C11_swap_changes_nothing]: at the token level, for two adjacent groups of tokens that
+    each read as one occurrence (any spelling, [C10_spellings_read_alike]); the reading-level
+    statement also covers two adjacent letters of a folded token (-ab / -ba).
+    Through T4a, the generic group lemma and T3, as C10 (see PC10.v); the relation carried through
+    the search is "same reading, or the readings differ by that one swap" ([ViewProofs.Sw]), which
+    [take] respects ([sw_take]).
+    NOT covered by the theorem: specs with a "--" atom, lines with an unreadable or Q1 token; covered
+    by the check, which swaps every adjacent pair on the implementation itself. *)
+From MowCli Require Import Base Nfa Matchers Apply Values Flow Cmd View TermProofs MatcherProofs SimProofs ViewProofs ReadProofs.
 
 Theorem C11_swap_invisible_to_either_matcher :
   forall D o c long v t o' c' long' v' t' pre rest,
@@ -32,5 +38,37 @@ Proof.
     now rewrite (other_spelled _ _ _ _ _ _ _ (rev t' ++ pre) rest Hn Hs H1).
 Qed.
 
+(** [take] cannot tell the two orders apart *)
+Theorem C11_take_respects_swap :
+  forall x u1 u2, Sw u1 u2 ->
+    match take x u1, take x u2 with
+    | Some (v1, w1), Some (v2, w2) => v1 = v2 /\ Sw w1 w2
+    | None, None => True
+    | _, _ => False
+    end.
+Proof. exact sw_take. Qed.
+
+Theorem C11_swap_changes_nothing :
+  forall D, oi_lookup D s_dd = None -> oi_lookup D [c_dash; c_eq] = None ->
+  forall g start pre up t o v t' o' v' rest u,
+    wf_graph g -> (forall s t0, ~ In (LDD, t0) (edges g s)) -> start < nstates g ->
+    Prefix D pre up -> no_dd up -> Prefix D t [VO o v] -> Prefix D t' [VO o' v'] -> Nat.eqb o o' = false ->
+    Reads D rest u ->
+    fsm_apply D g start (pre ++ t ++ t' ++ rest) = fsm_apply D g start (pre ++ t' ++ t ++ rest).
+Proof. exact swap_tokens_same_result. Qed.
+
+Theorem C11_swapped_readings_same_parse :
+  forall parse_float opts args spec i a1 a2 p o v o' v' w,
+    compile opts args spec = IOk i ->
+    sane (optinfo_of opts) = true -> no_dd_graph (i_graph i) = true ->
+    no_dd_b p = true -> Nat.eqb o o' = false ->
+    view (optinfo_of opts) a1 = Some (p ++ VO o v :: VO o' v' :: w) ->
+    view (optinfo_of opts) a2 = Some (p ++ VO o' v' :: VO o v :: w) ->
+    fsm_parse parse_float i a1 = fsm_parse parse_float i a2.
+Proof. exact swapped_view_same_parse. Qed.
+
+Print Assumptions C11_take_respects_swap.
+Print Assumptions C11_swap_changes_nothing.
+Print Assumptions C11_swapped_readings_same_parse.
 Print Assumptions C11_swap_invisible_to_either_matcher.
 Print Assumptions C11_third_option_steps_over_both.
